@@ -1059,11 +1059,11 @@ def mi_loss(
         if num_samples is None:
             num_samples = target.shape[2:].numel()
         num_samples = min(max(1, int(sample_ratio * target.shape[2:].numel())), num_samples)
+    weight = None
     if num_samples is not None:
         input, target = rand_sample([input, target], num_samples, mask=mask, replacement=True)
     elif mask is not None:
-        input = input.mul(mask)
-        target = target.mul(mask)
+        weight = mask.type_as(input)
 
     # set the bin edges and Gaussian kernel std
     bin_width = (vmax - vmin) / num_bins  # FWHM is one bin width
@@ -1079,6 +1079,10 @@ def mi_loss(
 
     pw_input = parzen_window_fn(input)  # (N, #bins, H*W*D)
     pw_target = parzen_window_fn(target)
+
+    # restrict joint histogram to samples within mask
+    if weight is not None:
+        pw_input = pw_input.mul(weight)
 
     # calculate joint histogram
     hist_joint = pw_input.bmm(pw_target.transpose(1, 2))  # (N, #bins, #bins)
